@@ -43,16 +43,23 @@ def user(name):
 
 
 class CaseDomain(so.StreamDomain):
+    closed_private = True
     """``script``: user callable name -> list of actions: ("call", method, pos, kw) on the case, ("raise", exception),
-    ("return", value); a callable without script returns None.  ``result_raises``: result methods that raise."""
+    ("return", value), ("set", attribute, value), ("once", action) -- the action in the first call of that callable
+    only; a callable without script returns None.  ``result_raises``: result methods that raise."""
 
-    def __init__(self, classes, script, result_raises=(), lacks=(), extra_attrs=None, **kw):
+    def __init__(self, classes, script, result_raises=(), lacks=(), extra_attrs=None, answers=None, snapshot_on=None, **kw):
         self.script = dict(script)
+        self.snapshot_on = snapshot_on   # ("user.<name>", state keys): what those keys hold whenever that user function is called
+        self.script_flags = {k: v for k, v in self.script.items() if k.startswith("no_upcall_")}
         raising = set(result_raises)
+        answers = dict(answers or {})
 
         def oracle(n, pos, kw_):
             if n in raising:
                 return [("exc", ("exc", "ResultBroken", n))]
+            if n in answers:
+                return list(answers[n])   # what a collaborator (a fixture, a patched object ...) answers: [("val", v) | ("exc", e)]
             return None
         attrs = {"self": ("self",), "self.failureException": ("excclass", "AssertionError"), "self.skipException": ("excclass", "SkipTest")}
         attrs.update(extra_attrs or {})
@@ -69,13 +76,25 @@ class CaseDomain(so.StreamDomain):
             name = fn[1][2:]
             pos_, kw_ = tuple(unbox_deep(v, st) for v in pos), tuple((k, unbox_deep(v, st)) for k, v in kw)
             st = st.set("ev.calls", st.get("ev.calls", ()) + (("user." + name, pos_, kw_, "called"),))
-            # the base-class upcalls a well-behaved setUp / tearDown makes
-            if name == "setUp":
-                st = st.set("self.__setup_called", TRUE)
-            if name == "tearDown":
-                st = st.set("self.__teardown_called", TRUE)
+            if self.snapshot_on is not None and self.snapshot_on[0] == "user." + name:
+                st = st.set("ev.snapshots", st.get("ev.snapshots", ()) + (("user." + name, tuple(unbox_deep(st.get(k, None), st) for k in self.snapshot_on[1])),))
             states, results = [st], []
-            for action in self.script.get(name, ()):
+            if name in ("setUp", "tearDown") and not self.script_flags.get("no_upcall_" + name):
+                # the base-class upcall a well-behaved setUp / tearDown makes first: TestCase.setUp / tearDown as written
+                states = []
+                for r in self.apply(interp, ("method", name), [], [], st, fr):
+                    if r.kind == "exc":
+                        results.append(r)
+                    else:
+                        states.append(r.state)
+            for i, action in enumerate(self.script.get(name, ())):
+                held = []
+                if action[0] == "once":
+                    # done by the first call of this user function only (what differs between two runs of one test)
+                    key = f"ev.once.{name}.{i}"
+                    held = [s_ for s_ in states if s_.get(key, None) is not None]
+                    states = [s_.set(key, TRUE) for s_ in states if s_.get(key, None) is None]
+                    action = action[1]
                 if action[0] == "call":
                     nxt = []
                     for s_ in states:
@@ -88,13 +107,14 @@ class CaseDomain(so.StreamDomain):
                 elif action[0] == "raise":
                     results.extend(exc(action[1], s_) for s_ in states)
                     states = []
-                    break
                 elif action[0] == "return":
                     results.extend(val(action[1], s_) for s_ in states)
                     states = []
-                    break
                 elif action[0] == "set":
                     states = [s_.set("self." + action[1], action[2]) for s_ in states]
+                states = states + held
+                if not states:
+                    break
             results.extend(val(NONE, s_) for s_ in states)
             return results
         return super().apply(interp, fn, pos, kw, st, fr)
